@@ -8,23 +8,23 @@ S = "bounded-exhaustive operation-sequence exploration + explicit-state BFS of t
 V = "stateless deviation-bounded exploration of the real hybrid cache under a deterministic runtime and sim IO engine (Engine V)"
 CHECKS = {
  "C02": ("T", "model_checking", "preemption-bounded exhaustive exploration of thread interleavings of the real in-memory cache under a cooperative scheduler bound through a parking_lot facade (Engine T); per-key register oracle in the statement's form",
-   "All pairs of single operations for two threads, 2-vs-1 operation programs, three-thread programs; three initial states; the same with a zero-weight contended key; final reads; LRU/S3-FIFO/FIFO (quick) or all five (thorough); shards 1 (1,2,4); every interleaving with <=2 (3) preemptions.",
-   "Lock acquire/release, spawn, join and exit are the scheduling points; adjacent plain atomics are not split; SC only; resize is not run concurrently here (get_or_fetch is).", "DESIGN.md 2.5, 4 C02"),
+   "All pairs of single operations for two threads (incl. get_or_fetch and resize), 2-vs-1 operation programs, three-thread programs; three initial states; the same with a zero-weight contended key; final reads; LRU/S3-FIFO/FIFO (quick) or all five (thorough); shards 1 (1,2,4); every interleaving with <=2 (3) preemptions.",
+   "Lock acquire/release, spawn, join and exit are the scheduling points, in the atomic_points jobs also every atomic operation on a record's reference count / flags; SC only; resize runs concurrently with the other operations (its helper threads are controlled threads through the foyer-memory verif seam), two resizes are not run against each other.", "DESIGN.md 2.5, 4 C02"),
  "C08": ("inputs", "model_checking", "exhaustive input enumeration (every value of the small types, every byte-string length 0..=20480, every destination-buffer length) on the real encode/decode and end to end through the real hybrid cache, with the independent format reader D",
-   "All u8/i8/u16/i16/bool values, pattern sets for wider types, Strings, Vec<u8>/Bytes of every length x 3 content classes; every too-small destination length; end-to-end insert->flush->evict->get->reopen->get for every (second) length x none/zstd/lz4.",
+   "All u8/i8/u16/i16/bool values, pattern sets for wider types, Strings, Vec<u8>/Bytes of every length 0..=20480 x 3 content classes and of the lengths around every power of two (and 3*2^k) up to 4 MiB; every too-small destination length; end-to-end insert->flush->evict->get->reopen->get for every (second) length x none/zstd/lz4.",
    "Both Code paths: the native implementations and (second build with foyer/serde) the blanket bincode implementation; wide numeric types are covered by bit patterns, not exhaustively.", "DESIGN.md 4 C08"),
  "C09": ("V", "model_checking", V + "; monitors on the device-write log and on pre-images parsed by the independent reader D",
    "Sustained workloads of ~4 device capacities on 4/6/8 blocks, flushers 1-3, reclaimers 1-2, clean threshold 1-2, reinsertion none/one key; Eager/LazyIo/Alternate(/ClientFirst) with all schedules within the deviation bound.",
    "Workloads are a fixed family; what is exhaustive is the schedule space within the bound; reinsertion is configured modestly (the crate documents that picking too much gets it stuck).", "DESIGN.md 4 C09"),
  "C16": ("S+T+V+TH", "model_checking", "bounded-exhaustive sequence exploration with re-entrant callbacks under a lock-holding monitor (Engine S + parking_lot facade), preemption-bounded thread exploration with deadlock detection on the memory cache (Engine T) and on the hybrid cache with a runtime-worker thread (Engine TH), and deviation-bounded exploration of the hybrid cache with the same monitor in its user callbacks (Engine V)",
-   "All sequences of <=3 (4) operations incl. in-flight fetches x five algorithms x re-entry mode; listener, weighter, filter, key and value destructors assert that no cache lock is held and call back into the cache; C02's thread programs with deadlock detection.",
+   "All sequences of <=3 (4) operations incl. in-flight fetches and lookup-only fetches (miss; joined by a fetching caller) x five algorithms x re-entry mode; listener, weighter, filter, key and value destructors assert that no cache lock is held and call back into the cache; C02's thread programs with deadlock detection.",
    "std::sync::RwLock in the block manager is not intercepted; the hybrid part probes value destructor, listener, weighter and admission filter (keys are u64 there).", "DESIGN.md 4 C16"),
 
  "C03": ("F", "fault_enumeration", "exhaustive single-page fault enumeration (zero / bit flips / page swaps / stale generations) over device images produced by real workloads, each reopened and fully read through the real code (enumerator F on Engine V images)",
    "Every page of every partition file incl. the tombstone log x the fault menu; 2 base images (quick) / 12 (thorough: compression x tombstone log x fresh/wrapped).",
    "Single-page faults only; values carry key+version+deterministic payload so any foreign or garbage byte is visible; worker death while evaluating an image is reported as a verdict (journal).", "DESIGN.md 2.8, 4 C03"),
  "C04": ("K", "fault_enumeration", "exhaustive crash-point / in-flight-subset / page-tear enumeration over the device-write logs of explored executions, each crash image recovered by the real code (enumerator K on Engine V logs)",
-   "All workloads of 4 (5) calls over insert/overwrite/remove/wait x policies x tombstone log; every write boundary x every subset of in-flight writes x page tears; crash/restart depth 2.",
+   "All workloads of 4 (5) calls over insert/overwrite/remove/wait x policies x tombstone log; every write boundary x every subset of in-flight writes x page tears; crash/restart depth 2 with three second-session workloads (rewrite k1; delete k2 only; insert k2 only) and first-session acknowledgements carried over for keys the second session does not write.",
    "Page-atomic device writes; concurrent writes unordered; acknowledgement = wait() first polled after the version reached the write queue and completed before the crash.", "DESIGN.md 2.8, 4 C04"),
  "C07": ("V", "model_checking", V + " with harness-controlled batch boundaries; independent on-disk-format reader D",
    "Regime A: all sequences of <=4 (6) entries over boundary sizes x all cuts into <=4 batches x 1-2 flushers on 16 KiB blocks; regime B: entry counts around the 170-slot blob index boundary on 1 MiB blocks; image parsed after every batch, read-back before and after reopen.",
@@ -38,12 +38,12 @@ CHECKS = {
    "Engine V: one task poll / one IO completion is atomic; tokio and the kernel are replaced by vrt/simio; shedding limits never trigger; removes durable across restart only with the tombstone log (documented). Engine TH: one runtime worker thread; atomics and channel operations between two lock operations are not split.", "DESIGN.md 2.3, 2.9, 4 C01"),
  "C05": ("S", "model_checking", S + " (weight ledger W)",
    "All operation sequences to depth 3 (quick) / 4 (thorough) plus deduplicated BFS, capacities 0..4 x shards 1..4 x five algorithms, ledger compared after every step.",
-   "Single caller thread; victims are followed not judged; resize calls are budgeted (each spawns an OS thread per shard).", "DESIGN.md 2.2, 4 C05"),
+   "Single caller thread; victims are followed not judged; resize's per-shard jobs run inline through the foyer-memory verif spawner seam (one legal schedule of helper threads that are joined before resize returns).", "DESIGN.md 2.2, 4 C05"),
  "C06": ("V", "model_checking", V + "; event-level enumeration of caller / disk / origin / cancel orderings",
-   "2-3 overlapping callers, held origins resolving ok/err, one injected disk read error, fetch-task cancellation, caller drop, concurrent insert/remove; memory-only x algorithms and hybrid x policies.",
+   "2-3 overlapping callers (11 orders of get / get_or_fetch), held origins resolving ok/err, one injected disk read error, fetch-task cancellation, caller drop, concurrent insert/remove; memory-only x algorithms and hybrid x policies; disk state (absent / on disk only / throttled) set up by a FIFO prologue.",
    "Deviation-bounded (2 quick / 3 thorough) around ClientFirst and Eager schedules; disk-lookup throttling not injected here.", "DESIGN.md 4 C06"),
  "C11": ("V+T", "model_checking", V + "; orderings of fetch start / insert / origin resolution; plus preemption-bounded thread interleavings of get_or_fetch vs insert on the memory cache (Engine T)",
-   "Held fetches (1-2 callers + lookup-only waiter), one or two explicit inserts, later lookups; memory-only x five algorithms and hybrid x policies; deviation bound 2 (quick) / 4 (thorough); thread part: get_or_fetch vs insert(s)/remove on one key, five algorithms, <=2 (3) preemptions at lock granularity.",
+   "Held fetches (1-2 callers + lookup-only waiter), one or two explicit inserts (ordinary, disk-only / storage-writer, in-memory-only), later lookups; memory-only x five algorithms and hybrid x policies; deviation bound 2 (quick) / 4 (thorough); thread part: get_or_fetch vs insert(s)/remove on one key, five algorithms, also with an admission filter that rejects the fetched value (phantom record), <=2 (3) preemptions at lock granularity.",
    "Hybrid cache: the premise 'while waiting on its origin' is evaluated at task-poll granularity; thread granularity is explored on the memory cache only.", "DESIGN.md 4 C11"),
  "C12": ("V", "model_checking", V + "; write-policy table P evaluated on the IO log decoded by the independent format reader D",
    "All histories of <=3 (4) calls over insert(Default/InMem/OnDisk)/get/get_or_fetch/fill/close x policies x flush_on_close x admission.",
@@ -55,7 +55,7 @@ CHECKS = {
    "Single shard, all sequences to depth 3 (4) + BFS on the reference algorithm's complete state, several configurations per algorithm, capacities 2..6, plus states reached through a resize; victim sequences compared eviction by eviction.",
    "Reference w-TinyLFU shares the datasketches sketch; S3-FIFO ghost duplicates and SIEVE hand reset follow the implementation (undocumented).", "DESIGN.md 4 C14"),
  "C15": ("V", "model_checking", V + "; close + reopen + read-back",
-   "All histories of <=3 (4) calls ending in close / close;close / close;insert, reopen, read all; policies x flush_on_close.",
+   "All histories of <=3 (4) calls ending in close / close;close / close;insert / drop-without-close, reopen, read all; policies x flush_on_close; plus histories after two refused (oversize) entries on an engine whose submit-queue budget is two such entries.",
    "Resident sets far below the flush buffer; no disk-capacity eviction.", "DESIGN.md 4 C15"),
  "C17": ("V+S+TH", "model_checking", V + ", Engine S, and client threads racing on the hybrid cache (Engine TH), all with a colliding user hasher; oracle R / ledger",
    "Keys 1,2 share a 64-bit hash (key 3 shares only shards): all histories of <=3 (4) calls, both policies, with restarts.",
@@ -82,10 +82,10 @@ manifest = {
     "version": 1,
     "setup_cmd": "cd /verif/harness && CARGO_NET_OFFLINE=true cargo build --release --offline && CARGO_NET_OFFLINE=true cargo build --release --offline -p checks --features serde_path --target-dir /verif/target-serde",
     "hooks": {
-        "guard": "cargo feature `verif` on foyer-storage",
-        "enable": "the harness depends on /repo's crates by path with features [verif, test_utils]; foyer is bound to the explorer by [patch.crates-io] substitution of madsim-tokio (vrt) and parking_lot (plshim) in /verif/harness/Cargo.toml",
+        "guard": "cargo feature `verif` on foyer-storage (re-exports for an external IoEngine, compression setter) and on foyer-memory (spawner seam for resize helper threads, optional callback before record atomics)",
+        "enable": "the harness depends on /repo's crates by path with features [verif, test_utils] (harness/checks/Cargo.toml); foyer is bound to the explorer by [patch.crates-io] substitution of madsim-tokio (vrt) and parking_lot (plshim) in /verif/harness/Cargo.toml",
         "baseline_off_cmd": "cd /repo && (cargo nextest run --workspace --no-fail-fast --offline || cargo test --workspace --no-fail-fast --offline)",
-        "source_commits": ["0216a43", "19f760c"],
+        "source_commits": ["0216a43", "19f760c", "89314d6"],
         "add_only": True,
     },
     "engines": [
